@@ -86,33 +86,182 @@ def nonsingular(p, A, B):
     return (4 * A ** 3 + 27 * B * B) % p != 0
 
 
-# ----------------------------------------------------------------------------- expected output of an op line
+# ----------------------------------------------------------------------------- reference for y^2 + xy = x^3 + Ax^2 + B over GF(2^m)
 
-def expect(line):
-    """group-law value of an op line (None if the oracle does not cover it)"""
-    w = line.split()
-    op, p, A, B = w[0], int(w[1], 16), int(w[2], 16), int(w[3], 16)
-    r = w[4:]
+class GF2:
+    def __init__(self, m, ks):
+        self.m = m
+        self.mod = (1 << m) | 1
+        for k in ks:
+            if k:
+                self.mod |= 1 << k
 
-    def J(t):  # Jacobian triple -> affine
-        X, Y, Z = (int(v, 16) for v in t)
+    def red(self, r):
+        m, mod = self.m, self.mod
+        while r.bit_length() > m:
+            r ^= mod << (r.bit_length() - 1 - m)
+        return r
+
+    def mul(self, a, b):
+        r = 0
+        while b:
+            if b & 1:
+                r ^= a
+            a <<= 1
+            b >>= 1
+        return self.red(r)
+
+    def inv(self, a):
+        # extended Euclid on polynomials
+        u, v, g1, g2 = a, self.mod, 1, 0
+        while u != 1:
+            j = u.bit_length() - v.bit_length()
+            if j < 0:
+                u, v, g1, g2, j = v, u, g2, g1, -j
+            u ^= v << j
+            g1 ^= g2 << j
+        return self.red(g1)
+
+    def sqrt(self, a):
+        for _ in range(self.m - 1):
+            a = self.mul(a, a)
+        return a
+
+    def halftrace(self, c):     # m odd: z^2 + z = c if Tr(c) = 0
+        z, t = c, c
+        for _ in range((self.m - 1) // 2):
+            t = self.mul(t, t)
+            t = self.mul(t, t)
+            z ^= t
+        return z
+
+
+class E2:
+    """binary curve, affine reference group law"""
+    def __init__(self, fld, A, B):
+        self.f, self.A, self.B = fld, A, B
+
+    def neg(self, P):
+        return None if P is None else (P[0], P[0] ^ P[1])
+
+    def add(self, P, Q):
+        f = self.f
+        if P is None:
+            return Q
+        if Q is None:
+            return P
+        x1, y1 = P
+        x2, y2 = Q
+        if x1 == x2:
+            if y1 != y2 or x1 == 0:
+                return None
+            lam = x1 ^ f.mul(y1, f.inv(x1))
+            x3 = f.mul(lam, lam) ^ lam ^ self.A
+            return (x3, f.mul(x1, x1) ^ f.mul(lam ^ 1, x3))
+        lam = f.mul(y1 ^ y2, f.inv(x1 ^ x2))
+        x3 = f.mul(lam, lam) ^ lam ^ x1 ^ x2 ^ self.A
+        return (x3, f.mul(lam, x1 ^ x3) ^ x3 ^ y1)
+
+    def sub(self, P, Q):
+        return self.add(P, self.neg(Q))
+
+    def mul(self, k, P):
+        R = None
+        while k:
+            if k & 1:
+                R = self.add(R, P)
+            P = self.add(P, P)
+            k >>= 1
+        return R
+
+    def on(self, x, y):
+        f = self.f
+        if x >> f.m or y >> f.m:
+            return False
+        return f.mul(y, y) ^ f.mul(x, y) == f.mul(f.mul(x, x), x ^ self.A) ^ self.B
+
+    def proj(self, X, Y, Z):    # Lopez-Dahab
+        f = self.f
+        if Z == 0:
+            return None
+        zi = f.inv(Z)
+        return (f.mul(X, zi), f.mul(Y, f.mul(zi, zi)))
+
+    def rand_point(self, rng):
+        f = self.f
+        while True:
+            x = rng.getrandbits(f.m)
+            if x == 0:
+                continue
+            xi = f.inv(x)
+            c = x ^ self.A ^ f.mul(self.B, f.mul(xi, xi))
+            z = f.halftrace(c)
+            if f.mul(z, z) ^ z == c:
+                return (x, f.mul(x, z ^ rng.getrandbits(1)))
+
+
+class Ep:
+    """prime curve, same interface"""
+    def __init__(self, p, A, B):
+        self.p, self.A, self.B = p, A, B
+
+    def neg(self, P):
+        return ec_neg(P, self.p)
+
+    def add(self, P, Q):
+        return ec_add(P, Q, self.p, self.A)
+
+    def sub(self, P, Q):
+        return ec_add(P, ec_neg(Q, self.p), self.p, self.A)
+
+    def mul(self, k, P):
+        return ec_mul(k, P, self.p, self.A)
+
+    def on(self, x, y):
+        return x < self.p and y < self.p and on_curve((x, y), self.p, self.A, self.B)
+
+    def proj(self, X, Y, Z):
+        p = self.p
         if Z % p == 0:
             return None
         zi = inv(Z, p)
         return (X * zi * zi % p, Y * zi ** 3 % p)
 
+
+def curve_of(w):
+    if w[1].startswith("b:"):
+        ks = [int(v) for v in w[1][2:].split(":")]
+        return E2(GF2(ks[0], ks[1:]), int(w[2], 16), int(w[3], 16))
+    return Ep(int(w[1], 16), int(w[2], 16), int(w[3], 16))
+
+
+# ----------------------------------------------------------------------------- expected output of an op line
+
+def expect(line):
+    """group-law value of an op line (None if the oracle does not cover it)"""
+    w = line.split()
+    op = w[0]
+    E = curve_of(w)
+    binary = isinstance(E, E2)
+    r = w[4:]
+    if op.endswith("32"):       # scalar routines on the 32-bit-word build: same group-law value
+        op = op[:-2]
+
+    def J(t):
+        return E.proj(*(int(v, 16) for v in t))
+
     def Af(t):
         return (int(t[0], 16), int(t[1], 16))
     if op == "pair":
         x1, y1, u1, x2, y2, u2 = (int(v, 16) for v in r)
-        P = (x1, y1) if u1 % p else None
-        Q = (x2, y2) if u2 % p else None
-        s, d, P2, P3 = ec_add(P, Q, p, A), ec_add(P, ec_neg(Q, p), p, A), ec_add(P, P, p, A), None
-        P3 = ec_add(P2, P, p, A)
-        nP = ec_neg(P, p)
+        P = (x1, y1) if (u1 if binary else u1 % E.p) else None
+        Q = (x2, y2) if (u2 if binary else u2 % E.p) else None
+        s, d, P2 = E.add(P, Q), E.sub(P, Q), E.add(P, P)
+        P3 = E.add(P2, P)
+        nP = E.neg(P)
         out = [show(s)] * 3 + [show(P2)] + [show(d)] * 3 + ["O"]
         out += ([show(s)] * 3 + [show(d)] * 3) if Q else ["-"] * 6
-        out += [show(P2)] * 2 + [show(P3)] * 2 + [show(nP)] * 2 + [show(P)] * 2
+        out += [show(P2)] * 2 + (["-"] * 2 if binary else [show(P3)] * 2) + [show(nP)] * 2 + [show(P)] * 2
         out += ([show(P2)] * 2 + [show(P)] * 2 + [show(nP)] * 2) if P else ["-"] * 6
         out += [show(s)] * 3 if P and Q else ["-"] * 3
         out += [show(P2)] if P else ["-"]
@@ -120,26 +269,27 @@ def expect(line):
         out += ["O"] if P else ["-"]
         return ";".join(out)
     if op == "ison":
-        x, y = int(r[0], 16), int(r[1], 16)
-        return "1" if x < p and y < p and on_curve((x, y), p, A, B) else "0"
+        return "1" if E.on(int(r[0], 16), int(r[1], 16)) else "0"
     if op == "swu":
-        return show(ref_swu(int(r[0], 16), p, A, B))
+        return show(ref_swu(int(r[0], 16), E.p, E.A, E.B))
     if op == "mul":
-        return show(ec_mul(int(r[2], 16), Af(r), p, A))
+        return show(E.mul(int(r[2], 16), Af(r)))
     if op == "hasorder":
-        return "1" if ec_mul(int(r[2], 16), Af(r), p, A) is None else "0"
+        return "1" if E.mul(int(r[2], 16), Af(r)) is None else "0"
     if op == "addmul":
         R = None
         for i in range(0, len(r), 3):
-            R = ec_add(R, ec_mul(int(r[i + 2], 16), Af(r[i:i + 2]), p, A), p, A)
+            R = E.add(R, E.mul(int(r[i + 2], 16), Af(r[i:i + 2])))
         return show(R)
     al, r = r[0], r[1:]
     if op in ("neg", "dbl", "tpl", "toa"):
         P = J(r)
-        return show({"neg": ec_neg(P, p), "dbl": ec_add(P, P, p, A), "tpl": ec_add(ec_add(P, P, p, A), P, p, A), "toa": P}[op])
+        if op == "tpl" and binary:
+            return "-"
+        return show({"neg": E.neg(P), "dbl": E.add(P, P), "tpl": E.add(E.add(P, P), P), "toa": P}[op])
     if op in ("dbla", "froma", "nega"):
         P = Af(r)
-        return show({"dbla": ec_add(P, P, p, A), "froma": P, "nega": ec_neg(P, p)}[op])
+        return show({"dbla": E.add(P, P), "froma": P, "nega": E.neg(P)}[op])
     if op in ("add", "sub"):
         P, Q = J(r[:3]), J(r[3:])
     elif op in ("adda", "suba"):
@@ -150,7 +300,7 @@ def expect(line):
         return None
     if al in ("ab", "abc"):
         Q = P
-    return show(ec_add(P, ec_neg(Q, p) if op.startswith("sub") else Q, p, A))
+    return show(E.sub(P, Q) if op.startswith("sub") else E.add(P, Q))
 
 
 # ----------------------------------------------------------------------------- generator
@@ -397,6 +547,81 @@ def gen_two_word(ctx, quick):
     return ops
 
 
+def gen_w32(ctx, std, quick):
+    """lines for the 32-bit-word build: lengths are in 32-bit words, so m = 1 selects the window width 3
+    (never reachable with 64-bit words except through zero scalars), m = 2, 3 width 4, m = 4.. width 5, m >= 11 width 6"""
+    rng = ctx.rng
+    ops = []
+    for p, A, B in [(23, 1, 1), (19, 16, 5), (31, 28, 11), (59, 56, 3), (11, 8, 2)]:
+        pts = points(p, A, B)
+        n = len(pts) + 1
+        for P in (pts if not quick else rng.sample(pts, min(len(pts), 5))):
+            for d in range(0, 2 * n + 3):
+                ops.append("mul32 %x %x %x %x %x %x %x" % (p, A, B, P[0], P[1], d, rng.choice([1, 1, 1, 2, 3, 4, 11])))
+            for d in [rng.randrange(1 << 32) for _ in range(6)] + [(1 << 32) - 1, 1 << 31, (1 << 31) + 1, 0x55555555, 0xaaaaaaab]:
+                ops.append("mul32 %x %x %x %x %x %x 1" % (p, A, B, P[0], P[1], d))
+            ops.append("hasorder32 %x %x %x %x %x %x 1" % (p, A, B, P[0], P[1], n))
+        for _ in range(60 if quick else 600):
+            k = rng.choice([1, 2, 2, 3, 4])
+            P0 = rng.choice(pts)
+            args = []
+            for _ in range(k):
+                P = rng.choice([P0, P0, rng.choice(pts), ec_neg(P0, p)])
+                d = rng.choice([0, 1, 3, rng.randrange(2 * n), rng.randrange(1 << 32), rng.randrange(1 << 64), rng.randrange(1 << 130), rng.randrange(1 << 360)])
+                args.append("%x %x %s%x" % (P[0], P[1], rng.choice(["", "", "0" * 8]), d))
+            ops.append("addmul32 %x %x %x %s" % (p, A, B, " ".join(args)))
+    for name, (p, A, B, q, xG, yG) in std.items():
+        n32 = (p.bit_length() + 31) // 32
+        for d in [0, 1, q - 1, q, q + 1, rng.randrange(q), (1 << (32 * n32)) - 1, (1 << (32 * (n32 + 1))) - 1, q + (1 << (32 * n32))]:
+            mmin = max(1, (d.bit_length() + 31) // 32)
+            for m in sorted(set([mmin, n32, n32 + 1])):
+                if m >= mmin:
+                    ops.append("mul32 %x %x %x %x %x %x %x" % (p, A, B, xG, yG, d, m))
+        ops.append("addmul32 %x %x %x %x %x 3 %x %x 3" % (p, A, B, xG, yG, xG, yG))
+        ops.append("addmul32 %x %x %x %x %x %x %x %x %x" % (p, A, B, xG, yG, rng.randrange(q), xG, yG, rng.randrange(1 << 32)))
+    return ops
+
+
+BIN_FIELDS = [(163, 7, 6, 3), (233, 74, 0, 0), (283, 12, 7, 5), (409, 87, 0, 0), (571, 10, 5, 2)]
+
+
+def gen_ec2(ctx, quick):
+    """ec2.c (Lopez-Dahab) is NOT modelled in Lean (stage 2): these lines are compared with the Python
+    reference only (test-level evidence, named in level_note)"""
+    rng = ctx.rng
+    ops = []
+    for fld in (BIN_FIELDS[:3] if quick else BIN_FIELDS):
+        f = GF2(fld[0], fld[1:])
+        tok = "b:%d:%d:%d:%d" % fld
+        for A in ([0, 1] if quick else [0, 1, rng.getrandbits(f.m)]):
+            B = rng.choice([1, rng.getrandbits(f.m) | 1])
+            E = E2(f, A, B)
+            pts = [E.rand_point(rng) for _ in range(2)]
+            pts += [E.add(pts[0], pts[1]), E.neg(pts[0]), E.add(pts[0], pts[0]), (0, f.sqrt(B))]
+            allp = [None] + pts
+            prs = [(P, Q) for P in allp for Q in allp]
+            if quick:
+                prs = rng.sample(prs, 16) + [(pts[0], pts[0]), (pts[0], pts[3]), (pts[5], pts[5]), (None, None)]
+            for P, Q in prs:
+                def enc(T):
+                    if T is None:
+                        return (rng.getrandbits(f.m), rng.getrandbits(f.m), 0)
+                    return (T[0], T[1], rng.choice([1, rng.getrandbits(f.m) | 2]))
+                ops.append("pair %s %x %x %s %s" % (tok, A, B, hx(*enc(P)), hx(*enc(Q))))
+            n = (f.m + 63) // 64
+            for P in pts[:2]:
+                for d in [0, 1, 2, 3, 5, (1 << 64) - 1, 1 << 64, rng.getrandbits(f.m), rng.getrandbits(64 * n)][:: (2 if quick else 1)]:
+                    m = max(1, (d.bit_length() + 63) // 64)
+                    ops.append("mul %s %x %x %x %x %x %x" % (tok, A, B, P[0], P[1], d, rng.choice([m, n, n + 1]) if n >= m else m))
+                ops.append("ison %s %x %x %x %x" % (tok, A, B, P[0], P[1]))
+                ops.append("ison %s %x %x %x %x" % (tok, A, B, P[0], P[1] ^ 1))
+                ops.append("ison %s %x %x %x %x" % (tok, A, B, P[0] | (1 << f.m), P[1]))
+            ops.append("mul %s %x %x 0 %x 2 1" % (tok, A, B, f.sqrt(B)))
+            ops.append("addmul %s %x %x %x %x 3 %x %x 3" % (tok, A, B, pts[0][0], pts[0][1], pts[0][0], pts[0][1]))
+            ops.append("addmul %s %x %x %x %x %x %x %x %x" % (tok, A, B, pts[0][0], pts[0][1], rng.getrandbits(100), pts[1][0], pts[1][1], rng.getrandbits(f.m)))
+    return ops
+
+
 CORPUS = [
     # textbook curve y^2 = x^3 + x + 1 over F_23 (order 28): P + Q, 2P, 28P = O
     "add 17 1 1 n 3 a 1 9 7 1", "dbl 17 1 1 ca 3 a 1", "mul 17 1 1 3 a 1c 1", "mul 17 1 1 3 a 1d 1",
@@ -439,6 +664,25 @@ def run(ctx):
     mism = []
     if os.path.exists(ctx.driver()):
         mism, c_out, l_out = ctx.diff_run(exe, ops, "ec-differential")
+        # 32-bit-word build: scalar routines with lengths in 32-bit words (window width 3), and a sample of the
+        # word-size independent lines
+        exe32 = ctx.cc("harness/c06.c", "w32")
+        ops32 = gen_w32(ctx, std, quick) + [o for o in ops if kind_of(o) in ("pair", "swu", "ison")][:: (40 if quick else 10)]
+        m32, _, _ = ctx.diff_run(exe32, ops32, "ec-differential-w32")
+        mism += m32
+        ops = ops + ops32
+    # ec2.c: implementation vs Python reference (no Lean model yet)
+    ops2 = gen_ec2(ctx, quick)
+    out2, err2, rc2 = ctx.run_lines(exe, ops2)
+    ctx.cov["ops_ec2_reference_only"] = len(ops2)
+    bad2 = []
+    for i, o in enumerate(ops2):
+        got = out2[i] if i < len(out2) else "CRASH(rc=%d): %s" % (rc2, err2.strip().split("\n")[-1][:200])
+        if got != expect(o):
+            bad2.append((o, got, expect(o)))
+            if i >= len(out2):
+                break
+    ctx.samples.append(ops2[0])
     hist = {}
     for o in ops:
         hist[kind_of(o)] = hist.get(kind_of(o), 0) + 1
@@ -447,6 +691,11 @@ def run(ctx):
     ctx.cov["distinct_nontrivial"] = len(set(ops))
     ctx.samples += [ops[len(CORPUS)], ops[len(CORPUS) + len(small)], ops[-1]]
     ctx.samples.append({"theorem": "Bee2V.C06.ecMulA_spec", "statement": "wNAF loop over any AddCommGroup computes d • P, FALSE iff d • P = 0"})
+    if bad2:
+        o, got, e = bad2[0]
+        ctx.violation("ec2:" + kind_of(o),
+                      "# property C06: ec2.c differs from the group law of y^2 + xy = x^3 + Ax^2 + B (Python reference; %d lines)\n%s\n# impl      %s\n# reference %s\n"
+                      % (len(bad2), o, got, e), True, "%s\n impl=%s\n reference=%s" % (o, got, e))
     if mism:
         # search oracle: does the implementation itself contradict the group law on a differing line?
         found = None
